@@ -22,6 +22,9 @@ TRUSTED = ["json.dumps/json.loads", "bytes.hex / bytes.fromhex are inverse", "in
 
 def check(run):
     prog = run.prog
+    # the query views (make_label, string_summary) walk parent links: every attached child must point back at its owner (C03's pairing rule)
+    from . import common as _common
+    _common.delegate(run, "C03", lambda rule, key: rule == "R3-pairing", floor=14)
     nm = prog.mod("node")
     jm = prog.mod("json_conversion")
     w = lambda n, m: f"{m.rel}:{getattr(n, 'lineno', 0)}"   # noqa: E731
